@@ -63,7 +63,6 @@ SplitOK(a, an, ad, out) ==
 (* ================================================================= P-layer: antitarget = *)
 EffMin(r) == IF r.min = 0 THEN 2 * (r.avg \div 32) ELSE r.min      \* "the minimum": 2*int(avg * 2^-5) when not given
 Targeted(r, c)   == c \in Chroms(r.a)
-WantedContig(r, c) == Targeted(r, c) \/ CanonicalName(r.names[c])   \* "every contig that is targeted or canonically named"
 (* the accessible regions: the table given, or the guessed chromosome extents [telo, end of the contig's targets) *)
 GuessP(r) == LET cs == SetToSortSeq(Chroms(r.a), <)
              IN [n \in 1..Len(cs) |-> <<cs[n], r.telo, Max({E(r.a[k]) : k \in {j \in Idx(r.a) : C(r.a[j]) = cs[n]}}), "">>]
@@ -82,10 +81,20 @@ StretchesOf(pos, neg, c) ==
         es == SetToSortSeq({bs[k+1] : k \in {j \in 1..m : in(j) /\ (j = m \/ ~in(j+1))}}, <)
     IN [k \in 1..Len(ss) |-> <<c, ss[k], es[k], "">>]
 
+(* every stretch of off-target accessible sequence of at least the minimum size on the contigs cs is covered by bins *)
+CoversFreeOn(r, cs) ==
+    LET sh == ShrunkP(r)
+        nt == NearTargetP(r)
+    IN \A ch \in cs :
+          LET d == StretchesOf(sh, nt, ch) IN
+          \A k \in Idx(d) : E(d[k]) - S(d[k]) >= EffMin(r) =>
+              \A x \in BreaksOn({sh, nt, r.out}, ch) : (S(d[k]) <= x /\ x < E(d[k])) => Covers(r.out, ch, x)
+
 TargetClauses == {"tgt_noerr", "tgt_unsplit_unchanged", "tgt_split_disjoint_ordered", "tgt_split_covers_union",
                   "tgt_split_equal_bins", "tgt_labels_keep_bins"}
 AntiClauses   == {"anti_noerr", "anti_named", "anti_on_access_contigs", "anti_inside_shrunk_access", "anti_clear_of_targets",
-                  "anti_disjoint", "anti_sizes", "anti_covers_free"}
+                  "anti_disjoint", "anti_at_least_min", "anti_at_most_1p5_avg", "anti_covers_free_targeted",
+                  "anti_covers_free_canonical"}
 Clauses(op) == CASE op = "target" -> TargetClauses [] op = "antitarget" -> AntiClauses [] OTHER -> {}
 
 Holds(c, r) ==
@@ -119,19 +128,18 @@ Holds(c, r) ==
       [] c = "anti_disjoint" ->
             NoErr(r) => \A j, k \in Idx(r.out) :
                 (j < k /\ C(r.out[j]) = C(r.out[k])) => (E(r.out[j]) <= S(r.out[k]) \/ E(r.out[k]) <= S(r.out[j]))
-      (* "are each at least the minimum and at most 1.5x the average size" *)
-      [] c = "anti_sizes" ->
-            NoErr(r) => \A k \in Idx(r.out) :
-                LET w == E(r.out[k]) - S(r.out[k]) IN w >= 1 /\ w >= EffMin(r) /\ 2 * w <= 3 * r.avg
+      (* "are each at least the minimum ..." *)
+      [] c = "anti_at_least_min" ->
+            NoErr(r) => \A k \in Idx(r.out) : LET w == E(r.out[k]) - S(r.out[k]) IN w >= 1 /\ w >= EffMin(r)
+      (* "... and at most 1.5x the average size" *)
+      [] c = "anti_at_most_1p5_avg" ->
+            NoErr(r) => \A k \in Idx(r.out) : 2 * (E(r.out[k]) - S(r.out[k])) <= 3 * r.avg
       (* "together cover every stretch of such off-target accessible sequence that is at least the minimum size, *)
-      (*  on every contig that is targeted or canonically named"                                                *)
-      [] c = "anti_covers_free" ->
-            NoErr(r) => LET sh == ShrunkP(r)
-                            nt == NearTargetP(r)
-                        IN \A ch \in {x \in Chroms(sh) : WantedContig(r, x)} :
-                              LET d == StretchesOf(sh, nt, ch) IN
-                              \A k \in Idx(d) : E(d[k]) - S(d[k]) >= EffMin(r) =>
-                                  \A x \in BreaksOn({sh, nt, r.out}, ch) : (S(d[k]) <= x /\ x < E(d[k])) => Covers(r.out, ch, x)
+      (*  on every contig that is targeted ..."                                                                 *)
+      [] c = "anti_covers_free_targeted" -> NoErr(r) => CoversFreeOn(r, {x \in Chroms(ShrunkP(r)) : Targeted(r, x)})
+      (* "... or canonically named" *)
+      [] c = "anti_covers_free_canonical" ->
+            NoErr(r) => CoversFreeOn(r, {x \in Chroms(ShrunkP(r)) : ~Targeted(r, x) /\ CanonicalName(r.names[x])})
 
 (* premises: baits/targets sorted as tabio.read delivers them, non-negative, start <= end; averages positive.   *)
 (* antitarget: targets non-empty with positive width; an access table, if given, is non-empty, has positive      *)
@@ -232,21 +240,24 @@ Drift(r) == IF r.op = "target" THEN (r.base_err = "" /\ ~BinsNear(r.base, ATarge
             ELSE IF NoErr(r) THEN (AAntiErr(r) \/ ~BinsNear(r.out, AAnti(r))) ELSE ~AAntiErr(r)
 
 (* ================================================================= known findings ===== *)
-(* annotation is assigned through a fresh 0..n-1 index while the bait table keeps its original row labels after *)
-(* zero-width rows were dropped: a kept row after a dropped one gets a missing name, and shortening then raises  *)
+(* Repaired finding (kept as documentation and diagnostic label; /repo "fix: target keeps names aligned with bins   *)
+(* after dropping zero-width baits"): annotation was assigned through a fresh 0..n-1 index while the bait table   *)
+(* kept its original row labels after zero-width rows were dropped: a kept row after a dropped one got a missing  *)
+(* name, and shortening then raised AttributeError (no bins at all).                                              *)
 AnnotateAfterDroppedRow(r) ==
     /\ r.op = "target" /\ r.annot /\ ~r.split
     /\ \E j, k \in Idx(r.a) : j < k /\ S(r.a[j]) = E(r.a[j]) /\ S(r.a[k]) # E(r.a[k])
-(* with no canonically named targeted contig the code keeps untargeted contigs by name length instead: an      *)
+(* OPEN: with no canonically named targeted contig the code keeps untargeted contigs by name length instead: an *)
 (* untargeted, canonically named access contig with a longer name than every targeted contig gets no bins      *)
 NoCanonicalTarget(r) ==
     /\ r.op = "antitarget" /\ r.has_access
     /\ ~\E c \in Chroms(r.a) : CanonicalName(r.names[c])
     /\ \E c \in Chroms(r.b) \ Chroms(r.a) : CanonicalName(r.names[c]) /\ Len(r.names[c]) > MaxLenOf(r, Chroms(r.a))
-(* min_bin_size filters regions, not bins: a region of at least the minimum that is split in n >= 2 bins can   *)
-(* give bins below the minimum (needs min > ~0.75 avg)                                                         *)
+(* OPEN: min_bin_size filters regions, not bins (subdivide.py `if span >= min_size`): an explicitly given minimum *)
+(* larger than the size a split bin reaches -- some free stretch of >= min bases is cut in n >= 2 bins of        *)
+(* span div n < min bases (needs min > ~0.75 avg; never with the default minimum avg/16)                          *)
 MinAboveSplitBin(r) ==
-    /\ r.op = "antitarget"
+    /\ r.op = "antitarget" /\ r.min # 0
     /\ LET sh == ShrunkP(r)
            nt == NearTargetP(r)
        IN \E ch \in Chroms(sh) : LET d == StretchesOf(sh, nt, ch) IN
